@@ -13,7 +13,8 @@ D=${1:-/tmp/verif-cov}
 B=$(ls -d ~/.rustup/toolchains/nightly-x86_64-unknown-linux-gnu/lib/rustlib/x86_64-unknown-linux-gnu/bin 2>/dev/null | head -1)
 [ -x "$B/llvm-cov" ] || { echo "nightly llvm-tools not found"; exit 2; }
 mkdir -p "$D/prof" "$D/out"
-(cd "$ROOT/harness" && CARGO_TARGET_DIR="$D/target" RUSTFLAGS="-C instrument-coverage" CARGO_NET_OFFLINE=true \
+# (build scripts and proc macros are instrumented too: their profiles go to the scratch dir, not into /repo)
+(cd "$ROOT/harness" && LLVM_PROFILE_FILE="$D/build-%p-%m.profraw" CARGO_TARGET_DIR="$D/target" RUSTFLAGS="-C instrument-coverage" CARGO_NET_OFFLINE=true \
    cargo +nightly build --offline >"$D/build.log" 2>&1) || { tail -20 "$D/build.log"; exit 2; }
 for c in "sys 120" "conn 1500" "sel 1200" "reg 112944" "codec 2500" "linkcc 6000" "classifier 5000" "control 4000" "reload 10000" "hub 20000" "e2e 48"; do
   set -- $c
